@@ -223,9 +223,26 @@ func runC14(ci interface{}) Result {
 	if cancelled {
 		r.Classes = append(r.Classes, "cancelled")
 		// few frames after the cancel
+		// counted from the moment the cancellation has taken effect: the return of
+		// the cancel call, or for Shutdown the container's arrival at its last stage
+		// (the client.cancel event is numbered before the client goroutine queues
+		// for the trace lock, which a busy render loop can hold off for milliseconds
+		// and hundreds of frames)
+		base := tr.CancelEffSeq
+		if base == 0 {
+			for _, e := range tr.Events {
+				if e.Point == "serve.done" {
+					base = e.Seq
+					break
+				}
+			}
+		}
+		if base == 0 {
+			base = tr.CancelSeq
+		}
 		after := 0
 		for _, c := range tr.Chunks {
-			if c.Seq > tr.CancelSeq {
+			if c.Seq > base {
 				after++
 			}
 		}
